@@ -28,7 +28,6 @@ def c01_runs(tier):
     add(1, 1, 1, 'b2X')
     add(2, 32, 0, 'qX', budget=120)
     add(1, 32, 0, 'b2', p='X')
-    add(2, 1, 0, 'b3', p='s', budget=90)
     add(0, 1, 1, 'XX', bound=3)
     if not quick:
         for mult, poll in ((32, 0), (1, 1)):
@@ -46,7 +45,8 @@ def c01_runs(tier):
         add(2, 1, 1, 'b3X', budget=200)
         add(2, 1, 0, 'X', t1='q', budget=400)
         add(2, 1, 0, 'b3', t1='X', budget=400)
-        add(2, 1, 0, 'b3', p='X', budget=300)
+        add(2, 1, 0, 'b3', p='s', budget=300)
+        add(2, 1, 0, 'b3', p='X', budget=400)
         add(2, 1, 0, 's', t1='q', p='s', budget=200)
         add(2, 32, 0, 's', t1='q', budget=300)
         add(2, 1, 0, 'b3X', budget=300)
